@@ -276,7 +276,33 @@ def gen_slos(rng, T):
         for _ in range(n):
             s[rng.randrange(d)] += 1
         U = random_unitary(rng, d) if rng.random() < 0.7 else random_matrix(rng, d)
-        cases.append({"Uex": U, "U": mfloat(U), "s": s})
+        case = {"Uex": U, "U": mfloat(U), "s": s}
+        if rng.random() < 0.55:
+            # post-selection (pruned bases): distinct modes, photon counts summing to <= n
+            k = rng.randint(1, d)
+            modes = rng.sample(range(d), k)
+            left = n
+            photons = []
+            for _m in modes:
+                p_ = rng.randint(0, min(left, 2))
+                photons.append(p_)
+                left -= p_
+            case["post"] = [modes, photons]
+        cases.append(case)
+    return cases
+
+
+def gen_pbk(rng, T):
+    """inputs of partitions_bounded_k: distinct constrained boxes, bounds below / at / above the
+    particle number, every k_limit from 0"""
+    cases = []
+    for _ in range(400 if T else 60):
+        boxes = rng.randint(1, 4)
+        particles = rng.randint(0, 5)
+        k = rng.randint(0, boxes)
+        modes = rng.sample(range(boxes), k)
+        maxs = [rng.randint(0, 3) if rng.random() < 0.8 else rng.randint(4, 7) for _ in modes]
+        cases.append({"boxes": boxes, "particles": particles, "modes": modes, "maxs": maxs, "klimit": rng.randint(0, 4)})
     return cases
 
 
@@ -580,6 +606,7 @@ def run(chk: Check):
 
     tables = gen_tables(rng, T)
     slos = gen_slos(rng, T)
+    pbk = gen_pbk(rng, T)
     passive = []
     # corpus first: past failing inputs (gates given with exact blocks)
     for c in load_corpus():
@@ -593,10 +620,12 @@ def run(chk: Check):
     if only:  # development knob (mutation experiments); recorded in the evidence
         keep = set(only.split(","))
         tables, slos, passive, active = (x if k in keep else [] for x, k in ((tables, "tables"), (slos, "slos"), (passive, "passive"), (active, "active")))
+        pbk = pbk if "slos" in keep else []
         chk.notes.append("RESTRICTED RUN: only streams %s" % sorted(keep))
     req = {
         "tables": [{"d": c["d"], "cutoff": c["cutoff"], "U": c["U"]} for c in tables],
-        "slos": [{"U": c["U"], "s": c["s"]} for c in slos],
+        "slos": [{k: c[k] for k in ("U", "s", "post") if k in c} for c in slos],
+        "pbk": pbk,
         "passive": [{"d": c["d"], "cutoff": c["cutoff"], "s": c["s"], "gates": c["gates"]} for c in passive],
         "active": [{k: c[k] for k in ("d", "cutoff", "hbar", "nmax", "sims", "gates", "cutoffs") if k in c} for c in active],
     }
@@ -606,7 +635,7 @@ def run(chk: Check):
         impl = run_impl("c01_impl.py", req, timeout=3000, extra_env=ENV1)
     except Exception as e_all:  # noqa: BLE001 - the interpreter died (e.g. segfault in a kernel): localise
         impl = {"timing": "per-stream after a crash"}
-        for key in ("tables", "slos", "passive", "active"):
+        for key in ("tables", "slos", "pbk", "passive", "active"):
             try:
                 impl[key] = run_impl("c01_impl.py", {key: req[key]}, timeout=3000, extra_env=ENV1)[key]
             except Exception as e:  # noqa: BLE001
@@ -694,20 +723,39 @@ def run(chk: Check):
     chk.stream("Fock representation tables + helper indices vs model (every (d,cutoff) of the grid, unitary and non-unitary U)",
                nent, nontriv, samples=[{"d": c_["d"], "cutoff": c_["cutoff"], "U": c_["U"]} for c_ in tables[5:6]])
 
-    # ------------------------------------------------------------ stream 2: SLOS
+    # ------------------------------------------------------------ stream 2: SLOS (with and without pruning)
+    def ccons(post):
+        return "[" + "; ".join("(%d%%nat,%d%%nat)" % (m, p_) for m, p_ in zip(post[0], post[1])) + "]"
+
     exprs = []
     for c in slos:
         c["Ui"], c["D"] = to_int(c["Uex"])
-        exprs.append("zil_flat (z_slos_vector %s %d%%nat %s)" % (cmat(c["Ui"]), len(c["s"]), cnats(c["s"])))
+        if "post" in c:
+            exprs.append("pruned_flat %s %d%%nat %s %s" % (cmat(c["Ui"]), len(c["s"]), ccons(c["post"]), cnats(c["s"])))
+        else:
+            exprs.append("zil_flat (z_slos_vector %s %d%%nat %s)" % (cmat(c["Ui"]), len(c["s"]), cnats(c["s"])))
     model = eval_cases("c01_slos", exprs, (len(exprs) + 1) // 2 if T else len(exprs))
     nent = 0
+    npruned = 0
     for c, r, flat in zip(slos, impl["slos"], model):
-        label = "s=%s" % c["s"]
+        label = "s=%s post=%s" % (c["s"], c.get("post"))
         if is_err(r):
             corr_broken.append("slos: implementation raised %s (%s) at %s" % (r["error"], r["msg"], label))
             continue
-        sec = sector(len(c["s"]), sum(c["s"]))
-        vals, _ = take_zi(flat, len(sec), 0, c["D"] ** sum(c["s"]))
+        d_ = len(c["s"])
+        if "post" in c:
+            if flat[0] != 1:
+                corr_broken.append("model: partitions_bounded_k transcription differs from the filtered sector at %s" % label)
+            m_ = (len(flat) - 1) // (2 + d_)
+            vals, pos = take_zi(flat, m_, 1, c["D"] ** sum(c["s"]))
+            sec = [flat[pos + i * d_:pos + (i + 1) * d_] for i in range(m_)]
+            if r.get("basis") != sec:
+                corr_broken.append("slos: pruned basis %s, model %s at %s" % (r.get("basis"), sec, label))
+                continue
+            npruned += int(m_ < len(sector(d_, sum(c["s"]))))
+        else:
+            sec = sector(d_, sum(c["s"]))
+            vals, _ = take_zi(flat, len(sec), 0, c["D"] ** sum(c["s"]))
         if len(r["v"]) != len(sec):
             corr_broken.append("slos: vector length %d != %d at %s" % (len(r["v"]), len(sec), label))
             continue
@@ -715,10 +763,25 @@ def run(chk: Check):
             m = complex(B[0], B[1]) / math.sqrt(fact(t) * fact(c["s"]))
             nent += 1
             if not cclose(got, m):
-                corr_broken.append("slos: amplitude of %s from %s: impl %s model %s" % (t, c["s"], got, m))
+                corr_broken.append("slos: amplitude of %s from %s: impl %s model %s at %s" % (t, c["s"], got, m, label))
                 break
-    chk.stream("SLOS calculate_state_vector vs model", nent, sum(1 for c in slos if sum(c["s"]) >= 2 and len(c["s"]) >= 2),
-               samples=[{"s": c_["s"], "U": c_["U"]} for c_ in slos[:1]])
+    chk.stream("SLOS calculate_state_vector vs model (with and without post-selection pruning)", nent,
+               sum(1 for c in slos if sum(c["s"]) >= 2 and len(c["s"]) >= 2),
+               samples=[{"s": c_["s"], "U": c_["U"], "post": c_.get("post")} for c_ in slos[:1]],
+               note="%d of %d cases post-selected, %d of them with a basis strictly smaller than the sector" % (sum(1 for c in slos if "post" in c), len(slos), npruned))
+
+    exprs = ["pbk_flat %d%%nat %d%%nat %s %d%%nat" % (c["boxes"], c["particles"], ccons([c["modes"], c["maxs"]]), c["klimit"]) for c in pbk]
+    model = eval_cases("c01_pbk", exprs, len(exprs))
+    nrows = 0
+    for c, r, flat in zip(pbk, impl.get("pbk", []), model):
+        if is_err(r):
+            corr_broken.append("partitions_bounded_k raised %s (%s) at %s" % (r["error"], r["msg"], c))
+            continue
+        rows = [x for row in r["rows"] for x in row]
+        nrows += len(r["rows"])
+        if rows != flat:
+            corr_broken.append("partitions_bounded_k: impl %s, model %s at %s" % (r["rows"], flat, c))
+    chk.stream("partitions_bounded_k vs model (rows and order, exact)", nrows, sum(1 for c in pbk if c["modes"] and c["particles"] >= 2 and c["boxes"] >= 2))
 
     # ------------------------------------------------------------ stream 3: passive programs, exact reference
     exprs = []
